@@ -123,20 +123,8 @@ pub fn check(c: &Case) -> CheckResult {
     let Some(inv) = xf_inverse64(&c.ctm) else { return Err("HARNESS: singular CTM".into()) };
     let mut dt = DrawTarget::new(c.w, c.h);
     dt.set_transform(&to_transform(&c.ctm));
-    // calls that leave pixels, transform, clip and layers as they were, made between set_transform and the draw
-    // (anything cached per transform must survive them): an empty layer group, or a clear under a clip
-    match (c.w + c.h + (c.alpha.to_bits() >> 9) as i32) % 4 {
-        0 => {
-            dt.push_layer(1.0);
-            dt.pop_layer();
-        }
-        1 => {
-            dt.push_clip_rect(irect(0, 0, c.w, c.h));
-            dt.clear(SolidSource { r: 0, g: 0, b: 0, a: 0 });
-            dt.pop_clip();
-        }
-        _ => {}
-    }
+    // (C10's harmless preludes between set_transform and the draw: anything cached per transform must survive them)
+    harmless_prelude(&mut dt, (c.w * 7 + c.h * 13 + (c.alpha.to_bits() >> 9) as i32) as u32 % 16);
     let mut pb = PathBuilder::new();
     for (i, cn) in [(-2.0, -2.0), (c.w as f64 + 2.0, -2.0), (c.w as f64 + 2.0, c.h as f64 + 2.0), (-2.0, c.h as f64 + 2.0)].iter().enumerate() {
         let p = xf_apply64(&inv, *cn);
